@@ -98,6 +98,13 @@ def variant_map(variant):
         return lambda x, y, i: (F(x, 2), F(y, 2))
     if variant == "fhalf":
         return lambda x, y, i: (0.5 * x, 0.5 * y)
+    if variant == "fr1":  # Fraction objects with denominator 1
+        return lambda x, y, i: (F(x), F(y))
+    if variant == "ifr":  # int and Fraction mixed inside one point
+        return lambda x, y, i: (x, F(y)) if i % 2 else (F(x), y)
+    if variant.startswith("q"):  # denominator ladder: x*(q+1)/q (unit scale, denominators q)
+        q = int(variant[1:])
+        return lambda x, y, i: (F(x * (q + 1), q), F(y * (q + 1), q))
     raise ValueError(variant)
 
 
